@@ -335,7 +335,14 @@ def run(tier, seed):
         detail = None if okrng else str(names)
     rep.add('FORWARD', 'generator:energy-range', where(gd, rng_[0].line if rng_ else None), 'set_decay_dbd_esum_range(min, max) receives the configured '
             'minimum and maximum in that order', okrng, detail)
-    new = [n for n in FG.nodes(kind='assign') if _fld_name(n.stmt[1]) == 'pdecay0' and 'new' in ir.fmt(n.stmt[2])]
+    # the construction site: `pdecay0 = new decay0_generator`, or `pdecay0.reset(new decay0_generator)` / make_unique on a smart pointer
+    new = [n for n in FG.nodes(kind='assign') if 'new' in ir.fmt(n.stmt[2]) and 'decay0_generator' in ir.fmt(n.stmt[2])]
+    new += [n for n in FG.nodes(kind='assign') if _fld_name(n.stmt[1]) == 'pdecay0' and 'new' in ir.fmt(n.stmt[2]) and n not in new]
+    new += [n for n in FG.nodes(kind='call') if n.stmt[1].endswith('::reset') and 'unique_ptr' in n.stmt[1] and len(n.stmt[2]) == 2 and
+            'new' in ir.fmt(n.stmt[2][1]) and 'decay0_generator' in ir.fmt(n.stmt[2][1])]
+    new += [n for n in FG.nodes(kind='assign') if 'make_unique' in ir.fmt(n.stmt[2]) and 'decay0_generator' in ir.fmt(n.stmt[2]) and n not in new]
+    if not new:
+        rep.cannot_decide('FORWARD', where(gd), 'generator:initialised: the construction of the core generator was not found in %s' % gd['name'])
     init = [n for n in FG.nodes(kind='call') if n.stmt[1] == 'decay0_generator::initialize']
     rets = [n for n in FG.g.nodes if n.kind == 'return']
     oki = len(new) == 1 and len(init) == 1 and FG.dominates(new[0], init[0])
@@ -348,8 +355,9 @@ def run(tier, seed):
             seen.add(i)
             st.extend(FG.g.nodes[i].succ)
         oki = not any(r.id in seen for r in rets)
-    rep.add('FORWARD', 'generator:initialised', where(gd, init[0].line if init else None), 'a newly built generator cannot be returned without passing '
-            'initialize(): every refusal of the core (unknown nuclide, mode, level, window) reaches the caller', oki)
+    if new:
+        rep.add('FORWARD', 'generator:initialised', where(gd, init[0].line if init else None), 'a newly built generator cannot be returned without passing '
+                'initialize(): every refusal of the core (unknown nuclide, mode, level, window) reaches the caller', oki)
     gg = g4.fn(PGA + '::pimpl_type::get_generator')
     seeds = [astu.src(c['args'][0]) for c in astu.walk(gg['body']) if c['k'] in ('New', 'Ctor', 'TempCtor') and 'default_random_engine' in str(c.get('ty', ''))
              and c.get('args')]
